@@ -1,7 +1,7 @@
 """Which rules decide which property."""
 from __future__ import annotations
 
-from .rules import frag, c01, c02, c03, c10, c11, c14, c18, c19, c20, cglob, cflags, clists
+from .rules import frag, c01, c02, c03, c10, c11, c14, c18, c19, c20, cglob, cflags, clists, cextra
 
 ASSUME = [
     'stdlib ast and re._parser front ends are correct',
@@ -23,6 +23,8 @@ PROPERTIES = {
             ('C01-R3ii', c01.rule_fullmatch_sites, 'quick'),
             ('C01-R4', c01.rule_posix_tables, 'quick'),
             ('C01-R5', c01.rule_literal_escaping, 'quick'),
+            ('C17-R7', cextra.rule_flag_mask_agreement, 'quick'),
+            ('C09-R4', cextra.rule_extend_guards, 'quick'),
         ],
     },
     'C02': {
@@ -40,6 +42,8 @@ PROPERTIES = {
             ('C02-R6', c02.rule_matchbase, 'quick'),
             ('C02-R7', c02.rule_nodir, 'quick'),
             ('C02-R8', c02.rule_forced_pathname, 'quick'),
+            ('C03-R2', c03.rule_guard_tables, 'quick'),
+            ('C02-R9', cextra.rule_references_table, 'quick'),
         ],
     },
     'C03': {
@@ -84,6 +88,9 @@ PROPERTIES = {
             ('C18-R4', c01.rule_posix_tables, 'quick'),
             ('C18-R5', c18.rule_type_checks, 'quick'),
             ('C18-R6', c18.rule_literal_twins, 'quick'),
+            ('C07-R2', clists.rule_is_negative_table, 'quick'),
+            ('C10-R5', c10.rule_range_safety, 'quick'),
+            ('C18-R7', cextra.rule_mypy_str_bytes, 'quick'),
         ],
     },
     'C19': {
@@ -122,6 +129,7 @@ PROPERTIES = {
             ('C14-R2', c14.rule_match_or_skip, 'quick'),
             ('C14-R3', c14.rule_wcmatch_predicates, 'quick'),
             ('C14-R4', c14.rule_pruning, 'quick'),
+            ('C15-R3', c14.rule_run_prologue, 'quick'),
         ],
     },
     'C15': {
@@ -134,6 +142,7 @@ PROPERTIES = {
             ('C15-R3', c14.rule_run_prologue, 'quick'),
             ('C15-R4', c14.rule_match_or_skip, 'quick'),
             ('C15-R4', c14.rule_yield_passthrough, 'quick'),
+            ('C15-R5', cextra.rule_prologue_every_path, 'quick'),
         ],
     },
     'C04': {
@@ -155,6 +164,8 @@ PROPERTIES = {
             ('C04-R8', frag.rule_const_fragments, 'quick'),
             ('C04-R9', cglob.rule_existence_gate, 'quick'),
             ('C03-R4', c03.rule_exclusion_dotmatch, 'quick'),
+            ('C06-R1', cglob.rule_link_test, 'quick'),
+            ('C04-R10', cextra.rule_dirfd_siblings, 'quick'),
         ],
     },
     'C05': {
@@ -170,6 +181,9 @@ PROPERTIES = {
             ('C05-R4', cglob.rule_specials_and_start, 'quick'),
             ('C03-R5', c03.rule_walker_hidden, 'quick'),
             ('C05-R5', cglob.rule_globstar_handover, 'quick'),
+            ('C02-R6', c02.rule_matchbase, 'quick'),
+            ('C05-R6', cextra.rule_loop_fresh_lists, 'quick'),
+            ('C09-R4', cextra.rule_extend_guards, 'quick'),
         ],
     },
     'C06': {
@@ -200,6 +214,8 @@ PROPERTIES = {
             ('C04-R7', cglob.rule_root_relative_fs, 'quick'),
             ('C12-R5', cglob.rule_abs_pattern_def, 'quick'),
             ('C18-R5', c18.rule_type_checks, 'quick'),
+            ('C13-R2', cglob.rule_yield_filtered, 'quick'),
+            ('C04-R10', cextra.rule_dirfd_siblings, 'quick'),
         ],
     },
     'C13': {
@@ -228,6 +244,8 @@ PROPERTIES = {
             ('C13-R3', cglob.rule_dedupe_predicate, 'quick'),
             ('C04-R2', cglob.rule_platform_twins, 'quick'),
             ('C02-R6', c02.rule_matchbase, 'quick'),
+            ('C16-R5', cextra.rule_pathlib_norm, 'quick'),
+            ('C17-R7', cextra.rule_flag_mask_agreement, 'quick'),
         ],
     },
     'C17': {
@@ -246,6 +264,9 @@ PROPERTIES = {
             ('C17-R5', cflags.rule_sep_parametric, 'quick'),
             ('C02-R1', frag.rule_site_templates, 'quick'),
             ('C20-R4', c20.rule_normalise_before_expand, 'quick'),
+            ('C17-R7', cextra.rule_flag_mask_agreement, 'quick'),
+            ('C17-R6', cextra.rule_case_fold_consistency, 'quick'),
+            ('C02-R9', cextra.rule_references_table, 'quick'),
         ],
     },
     'C07': {
@@ -264,6 +285,7 @@ PROPERTIES = {
             ('C07-R5', clists.rule_expand_order, 'quick'),
             ('C07-R6', clists.rule_bracket_extents, 'quick'),
             ('C02-R4', c02.rule_bracket_abort, 'quick'),
+            ('C09-R4', cextra.rule_extend_guards, 'quick'),
         ],
     },
     'C08': {
@@ -292,6 +314,9 @@ PROPERTIES = {
             ('C07-R2', clists.rule_is_negative_table, 'quick'),
             ('C09-R3', clists.rule_escape_entry_points, 'quick'),
             ('C05-R3', cglob.rule_magic_classification, 'quick'),
+            ('C01-R3ii', c01.rule_fullmatch_sites, 'quick'),
+            ('C09-R4', cextra.rule_extend_guards, 'quick'),
+            ('C09-R5', cextra.rule_is_magic_guard, 'quick'),
         ],
     },
     'C10': {
@@ -308,6 +333,8 @@ PROPERTIES = {
             ('C10-R5', c10.rule_range_safety, 'quick'),
             ('C01-R4', c01.rule_posix_tables, 'quick'),
             ('C20-R3', c20.rule_translation_table, 'quick'),
+            ('C02-R5', c02.rule_globstar_predicate, 'quick'),
+            ('C17-R5', cflags.rule_sep_parametric, 'quick'),
         ],
     },
 }
